@@ -250,6 +250,10 @@ func (ss *Package) buildObjectSchema(srcMsg protoreflect.MessageDescriptor, opts
 		}
 	}
 
+	if err := checkFlattenedNames(objectSchema); err != nil {
+		return nil, err
+	}
+
 	entity, err := findPSMOptions(srcMsg)
 	if err != nil {
 		return nil, fmt.Errorf("PSM options for %s: %w", srcMsg.FullName(), err)
@@ -263,6 +267,34 @@ func (ss *Package) buildObjectSchema(srcMsg protoreflect.MessageDescriptor, opts
 	}
 
 	return objectSchema, nil
+}
+
+// checkFlattenedNames makes sure that the members of flattened child objects
+// do not collide with each other or with the object's own properties: they
+// all become members of the same JSON object.
+func checkFlattenedNames(object *ObjectSchema) error {
+	seen := map[string]struct{}{}
+	var add func(props []*ObjectProperty) error
+	add = func(props []*ObjectProperty) error {
+		for _, prop := range props {
+			if child, ok := prop.Schema.(*ObjectField); ok && child.Flatten {
+				childSchema, ok := child.Ref.To.(*ObjectSchema)
+				if !ok {
+					continue // still being built (recursive), checked from there
+				}
+				if err := add(childSchema.Properties); err != nil {
+					return err
+				}
+				continue
+			}
+			if _, ok := seen[prop.JSONName]; ok {
+				return fmt.Errorf("object %s has more than one property named %q after flattening", object.FullName(), prop.JSONName)
+			}
+			seen[prop.JSONName] = struct{}{}
+		}
+		return nil
+	}
+	return add(object.Properties)
 }
 
 func findPSMOptions(srcMsg protoreflect.MessageDescriptor) (*schema_j5pb.EntityObject, error) {
